@@ -30,7 +30,7 @@ def run(chk):
 def replay(chk, path):
     import json
     rep = json.load(open(path))
-    if rep.get("family") == "reent_scenarios":     # harness/c12_reent.py: re-run the scenario on the current tree
+    if rep.get("family") in ("reent_scenarios", "reent_teardown"):     # harness/c12_reent.py: re-run the scenario on the current tree
         import c12_reent
         return c12_reent.replay_case(rep, path)
     if "script" in rep and "pool" in rep:          # a pooled_inner_scenarios case: re-run it on the current tree
